@@ -149,6 +149,73 @@ Example C19_example_nonvacuous :
   delivered (touts true [7; 8] (seq_labels true 3)) = [RItem 7; RItem 8; RStop].
 Proof. vm_compute. repeat split; reflexivity. Qed.
 
+(** ---- tie of the hand-written model to the source (second kind; harness/TIE_TASK.md) ----
+
+    translate/aio_funs.py regenerates Gen/AioFuns.v from nextline/utils/aio.py on every run: the bodies of
+    merge_aiters / agen_with_wait and the methods of to_aiter as terms of the statement AST of Aio/Syntax.v
+    (`x = e`, `x |= e`, `x &= e`, `x = y`, `.add/.remove/.pop/.clear`, `m[k] = v`, arming an anext,
+    `await asyncio.wait(.., FIRST_COMPLETED)`, `yield`, `t.result()` under `except StopAsyncIteration`,
+    `t.exception()`, `cancel`, `raise`, if/while/for/break/continue are all DIFFERENT constructors).
+    Aio/Interp.v runs those terms on a small continuation machine whose nondeterminism is driven by the SAME
+    labels as Model.v.  The theorems below are about the REGENERATED definitions [merge_aiters_body],
+    [agen_with_wait_body], [to_aiter_methods]/[to_aiter_selector]: for ALL label sequences the machine
+    produces exactly the outputs of the model's step functions and remains in a state related to the model's
+    ([MR], [GR]: same sources / tasks / sets `pending`, `done`, matching program point; never stuck).
+    Obligation kind (b) of the brief, proved by a simulation relation and induction over the label list. *)
+From NL Require Import Aio.Tie.
+
+Theorem C19_tie_merge : forall (items : list (list V)) (ls : list mlabel),
+  imouts items ls = mouts items ls /\ MR (mrun items ls) (imrun items ls).
+Proof. exact merge_tie. Qed.
+
+Theorem C19_tie_merge_never_stuck : forall items ls, stuck (imrun items ls) = false.
+Proof. exact tie_merge_never_stuck. Qed.
+
+(** the projection property transferred to what the regenerated body yields *)
+Theorem C19_tie_merge_projection : forall (items : list (list V)) (ls : list mlabel) (i : nat),
+  (forall j v, In (j, v) (yields (imouts items ls)) -> (j < List.length items)%nat) /\
+  exists rest, nth i items [] = proj i (yields (imouts items ls)) ++ rest.
+Proof. exact tie_merge_projection. Qed.
+
+Theorem C19_tie_merge_complete : forall items ls i,
+  c_st (imrun items ls) = StFinished -> proj i (yields (imouts items ls)) = nth i items [].
+Proof. exact tie_merge_complete. Qed.
+
+Theorem C19_tie_agen : forall (items : list V) (ls : list glabel),
+  igouts items ls = gouts items ls /\ GR (grun items ls) (igrun items ls).
+Proof. exact agen_tie. Qed.
+
+Theorem C19_tie_agen_never_stuck : forall items ls, stuck (igrun items ls) = false.
+Proof. exact tie_agen_never_stuck. Qed.
+
+Theorem C19_tie_agen_items : forall items ls, exists rest, items = gitems (igouts items ls) ++ rest.
+Proof. exact tie_agen_items. Qed.
+
+Theorem C19_tie_agen_raise_identity : forall items ls x e,
+  In (x, GVRaise e) (igouts items ls) ->
+  exists t ts, In (GTaskEnd t (TExc e)) ls /\ In (GSend (Some ts)) ls /\ In t ts.
+Proof. exact tie_agen_raise_identity. Qed.
+
+Theorem C19_tie_to_aiter : forall (thread : bool) (items : list V) (ls : list tlabel),
+  itouts thread items ls = touts thread items ls /\
+  it_rest (itrun thread items ls) = t_rest (trun thread items ls) /\
+  it_log (itrun thread items ls) = t_log (trun thread items ls) /\
+  map abs_call (it_calls (itrun thread items ls)) = t_calls (trun thread items ls) /\
+  it_stuck (itrun thread items ls) = false.
+Proof. exact to_aiter_tie. Qed.
+
+Theorem C19_tie_to_aiter_sequential : forall thread items k,
+  delivered (itouts thread items (seq_labels thread k)) = map (res_at items) (seq 0 k).
+Proof. exact tie_to_aiter_sequential. Qed.
+
+(** the machine really runs the regenerated bodies (not a vacuous equality of two empty lists) *)
+Example C19_tie_example_nonvacuous :
+  yields (imouts ex_items ex_ls) = [(1%nat, 3); (0%nat, 1); (0%nat, 2)] /\
+  c_st (imrun ex_items ex_ls) = StFinished /\
+  last (igouts [10; 11] chrono_ls) ((false, []), GVNone) = ((false, [0%nat; 1%nat]), GVRaise 2) /\
+  delivered (itouts true [7; 8] (seq_labels true 3)) = [RItem 7; RItem 8; RStop].
+Proof. vm_compute. repeat split; reflexivity. Qed.
+
 Print Assumptions C19_merge_projection.
 Print Assumptions C19_merge_accounting.
 Print Assumptions C19_merge_terminates.
@@ -160,3 +227,13 @@ Print Assumptions C19_agen_chronological_refuted.
 Print Assumptions C19_agen_chronological_partial.
 Print Assumptions C19_to_aiter_items.
 Print Assumptions C19_to_aiter_sequential.
+Print Assumptions C19_tie_merge.
+Print Assumptions C19_tie_merge_never_stuck.
+Print Assumptions C19_tie_merge_projection.
+Print Assumptions C19_tie_merge_complete.
+Print Assumptions C19_tie_agen.
+Print Assumptions C19_tie_agen_never_stuck.
+Print Assumptions C19_tie_agen_items.
+Print Assumptions C19_tie_agen_raise_identity.
+Print Assumptions C19_tie_to_aiter.
+Print Assumptions C19_tie_to_aiter_sequential.
